@@ -70,6 +70,9 @@ func pipesFor(p protos.P) []string {
 		return []string{"", "", "", "m", "z"}
 	}
 	if p.HTTP {
+		if *lean {
+			return []string{"", "", "", "z"} // gzip under the race detector is very slow
+		}
 		return []string{"", "z", "g"}
 	}
 	return []string{"", "z", "m", "mz", "gm", "mgm"}
@@ -104,6 +107,9 @@ func configs(tierName string, r *core.Rand) []Config {
 			Chunk: chunks[r.Intn(len(chunks))], Log: logs[r.Intn(len(logs))], Delay: []int{0, 50, 200}[r.Intn(3)], Class: "traffic"}
 		if c.G >= 32 {
 			c.N = ops / 2
+		}
+		if *lean {
+			c.N = c.N/2 + 1
 		}
 		if c.Chunk == "one" {
 			c.N = c.N/2 + 1 // byte-wise delivery is slow
